@@ -213,6 +213,13 @@ def fresh_maplist(eng, name, kind, n):
         hi = z3.Function(f"{name}_hi!{eng.fresh_n}", IntS, IntS)
         eng.fresh_n += 1
         return MapList(n, lambda k, lo=lo, hi=hi: range_string(CharV(lo(zterm(k))), CharV(hi(zterm(k)))), "rangestr", name)
+    if kind == "run":
+        from .symex import RunStr
+        lo = z3.Function(f"{name}_lo!{eng.fresh_n}", IntS, IntS)
+        hi = z3.Function(f"{name}_hi!{eng.fresh_n}", IntS, IntS)
+        nn = z3.Function(f"{name}_n!{eng.fresh_n}", IntS, IntS)
+        eng.fresh_n += 1
+        return MapList(n, lambda k, lo=lo, hi=hi, nn=nn: RunStr(CharV(lo(zterm(k))), CharV(hi(zterm(k))), nn(zterm(k))), "run", name)
     if kind == "classitem":
         # an accumulator that holds characters and range strings: tag + two codes
         tag = z3.Function(f"{name}_tag!{eng.fresh_n}", IntS, BoolS)
